@@ -139,19 +139,25 @@ theorem landShape (cs : List E) : bval ρ (match cs with | [] => .blit true | _ 
 theorem lorShape (cs : List E) : bval ρ (match cs with | [] => .blit false | _ => .lor cs) = bany ρ cs := by
   cases cs <;> simp [bval, bany]
 
-theorem getConstantValue_sound {e : E} {x a : Int} (h : getConstantValue e = some x) (ha : aval ρ e = some a) : a = x := by
-  unfold getConstantValue at h
-  split at h
-  · rename_i hm
-    obtain ⟨b, hb, rfl⟩ := minusPrefix_val hm ha
+theorem getConstantValue_sound : ∀ (f : Nat) (e : E) (x a : Int), getConstantValue f e = some x →
+    aval ρ e = some a → a = x := by
+  intro f
+  induction f with
+  | zero => intro e x a h; simp [getConstantValue] at h
+  | succ f ih =>
+    intro e x a h ha
+    unfold getConstantValue at h
     split at h
-    · rename_i n hn
-      rw [hn] at hb; simp [aval] at hb; injection h with h; omega
-    · simp at h
-  · split at h
-    · simp [aval] at ha; injection h with h; omega
-    · simp at h
-
+    · rename_i hm
+      obtain ⟨b, hb, rfl⟩ := minusPrefix_val hm ha
+      simp only [Option.map_eq_some_iff] at h
+      obtain ⟨v, hv, rfl⟩ := h
+      have := ih _ v b hv hb
+      omega
+    · split at h
+      · simp [aval] at ha; injection h with h; omega
+      · simp [aval] at ha; injection h with h; omega
+      · simp at h
 
 theorem bval_arith_none (t : E) (h : match t with | .sum .. | .prod .. | .quot .. | .pow .. => True | _ => False) :
     bval ρ t = none := by
@@ -210,7 +216,7 @@ theorem simp_sound (k : K) (hk : k.strict = true) (fl : Flags) (hc : fl.collect 
       have h2 : RefA ρ n1 n2 := by
         unfold optIf at hn2
         split at hn2
-        · rw [hk] at hn2; exact mulLiterals_sound f n1 n2 hn2
+        · exact mulLiterals_sound f n1 n2 hn2
         · injection hn2 with hn2; subst hn2; exact fun _ h => h
       refine ⟨?_, fun v hv => by simp [bval] at hv⟩
       split at h
@@ -228,7 +234,7 @@ theorem simp_sound (k : K) (hk : k.strict = true) (fl : Flags) (hc : fl.collect 
       have h2 : RefA ρ n1 n2 := by
         unfold optIf at hn2
         split at hn2
-        · rw [hk] at hn2; exact divLiterals_sound f n1 n2 hn2
+        · exact divLiterals_sound f n1 n2 hn2
         · injection hn2 with hn2; subst hn2; exact fun _ h => h
       refine ⟨?_, fun v hv => by simp [bval] at hv⟩
       split at h
@@ -307,8 +313,8 @@ theorem simp_sound (k : K) (hk : k.strict = true) (fl : Flags) (hc : fl.collect 
         · simp only [Option.bind_eq_some_iff] at h
           obtain ⟨x', hgx, y', hgy, h⟩ := h
           simp only [pure, Option.some.injEq] at h; subst h
-          have e1 := getConstantValue_sound hgx hx'
-          have e2 := getConstantValue_sound hgy hy'
+          have e1 := getConstantValue_sound f _ _ _ hgx hx'
+          have e2 := getConstantValue_sound f _ _ _ hgy hy'
           subst e1; subst e2
           simpa [bval] using hv
         · simp only [pure, Option.some.injEq] at h; subst h; exact keep
